@@ -1,7 +1,7 @@
 /* Reference model of LHA file headers (levels 0-3): DESIGN.md appendix B.  Independent of lhasa's code:
  * an encoder from a field record, a raw parser with the integrity rules, and normalise() giving the fields
  * a reader must hand to its caller.  Parser + normalise are bound to the recorded header dumps of the
- * corpus (test/output/**-hdr.txt) by ./check selftest. */
+ * corpus (test/output, the -hdr.txt files) by ./check selftest. */
 #ifndef REF_HEADER_H
 #define REF_HEADER_H
 #include <stdint.h>
